@@ -291,9 +291,18 @@ func sparseTables(r *vkit.R, g *vkit.Rand) {
 		{"start-up with leaderless shards", nil},
 		{"all shards led, one moved", func() []int {
 			t := append([]int(nil), full...)
-			m := g.Intn(b.N)
+			// the moved shard is one the gateway already knows a leader of (published in the phase before), so that the move
+			// is a hand-over between two live servers in every run, not a first appearance
+			var known []int
+			for sh, l := range b.table {
+				if l >= 0 {
+					known = append(known, sh)
+				}
+			}
+			m := known[g.Intn(len(known))]
 			t[m] = (t[m] + 2) % b.K
 			full = t
+			r.Count("gw_sparse_handover_of_known_shard", 1)
 			return t
 		}},
 		{"fail-over gap", func() []int {
